@@ -79,7 +79,7 @@ theorem at_some (h : Heap) (r : Nat) (n : Int) :
     at_ h (some r) n = if n < 0 then atLoop h.pv r (-n).toNat r else atLoop h.nx r n.toNat r := by
   have e1 : h.get .prev = h.pv := rfl
   have e2 : h.get .next = h.nx := rfl
-  simp [at_, atNeg, atNegated, atBack, atFwd, e1, e2]
+  simp [at_, atNeg, atStepBack, atStepFwd, atBack, atFwd, e1, e2, Int.ediv_neg, Int.ediv_one]
 
 end facts
 
